@@ -26,7 +26,8 @@ impl PanicInfo {
                 last_hash = false;
             }
         }
-        out.truncate(100);
+        // (keep signatures short; cut on a character boundary and keep them ASCII-safe)
+        let out: String = out.chars().take(100).map(|c| if c.is_ascii() { c } else { '?' }).collect();
         out
     }
 }
